@@ -26,6 +26,8 @@ def rand_class(rng, max_alpha=3, max_prefix=3, max_stats=3, bytes_p=0.15, atoms=
         dead = rng.choice(alphabet)  # dead statistic (DropDeadStat)
         pats.add(dead)
         stats[-1][1] = dead
+    if rng.random() < 0.06:
+        pats.update(alphabet)  # dead end: no letter can ever be appended
     plen = rng.choice((0, 0, 0, 0, 1, 1, 2, 3))
     plen = min(plen, max_prefix)
     prefix = "".join(rng.choice(alphabet) for _ in range(plen))
@@ -52,6 +54,8 @@ def rand_pack(rng, cls=None, allow_iterative=True, allow_prefix_ver=True, allow_
         inf.append("merge")
     if rng.random() < 0.3:
         inf.append("deadstat")
+    if rng.random() < 0.3:
+        inf.append("rename")
     rng.shuffle(inf)
     o["inferral"] = inf
     layouts = ["initial", "initial", "sets"] + (["same"] if allow_same else [])
